@@ -224,12 +224,16 @@ CLAIMED = {
         "alone, while jumps inside the direct line are ordinary; a listed line comes with exactly the ranges recorded for that line, shifted by the width of "
         "the line-number prefix; the linker reports every unresolved line reference as UNDEFINED LINE with the line its code address belongs to and the column "
         "range recorded with the reference, and leaves the instruction alone; in a compiled program an address inside line n's code is attributed to line n; "
-        "together, for GOTO / ON..GOTO: a missing target is reported in the statement's own line at the parser's range for the number (Props/C19.v, "
-        "Proofs/ErrBlock.v, LinkErr.v).",
+        "together, for GOTO / ON..GOTO: a missing target is reported in the statement's own line at the parser's range for the number; and that range is "
+        "exact: every token reaches the parser with the character range it occupies in the listed text (blanks and multi-byte text included), every "
+        "parser function leaves the parser on a token boundary, and for every line that parses, every branch target of GOTO / GOSUB / ON.. / THEN n / "
+        "ELSE n / RESTORE n / RUN n carries exactly the range of its number token and every WHILE / WEND exactly the range of its keyword, at any "
+        "nesting of IF (Props/C19.v, Proofs/ErrBlock.v, LinkErr.v, ParseCols.v).",
         "programs of sentinel-printing lines with injected dangling references in every referencing form, unmatched WHILE/WEND and token damage behind ASCII "
         "and multi-byte text, entered through RUN, RUN n, GOTO, GOSUB, ON.., CONT on model and crate; nothing may be printed by the program, direct "
         "statements (looping ones included) must still work, and the reported range must underline exactly the number / keyword in the listed line.",
-        "PARTIAL: the parser's column tracking (that the range covers exactly the number / keyword) is decided by the monitor, not proved.",
+        "PARTIAL: that code generation hands the parser's range on unchanged for every statement form (proved for GOTO / ON..GOTO / LET / PRINT / END "
+        "pieces), the ranges of syntax errors, and the shift by the line-number prefix on display end to end are decided by the monitor, not proved.",
         "Coq theorems on the entry guard and on the linker's diagnostic + fault-injection differential check with an underline monitor"),
     "C20": entry(
         "appending a fragment places its code unchanged behind the existing code; linking patches every recorded reference whose symbol is defined with "
